@@ -1,7 +1,8 @@
-(* C18 - Layout depends only on the resolver's answers (the type-table half is in C18t.v). *)
+(* C18 - Layout depends only on the resolver's answers; type tables are faithful.
+   The JSON form of a table is serde_json's: its round trip is decided by execution (engine E6). *)
 From Coq Require Import List NArith.
-From Truc.Model Require Import Layout Builder.
-From Truc.Proofs Require Import Erase.
+From Truc.Model Require Import Layout Builder TypeName.
+From Truc.Proofs Require Import Erase TypeNameP.
 Import ListNotations.
 Open Scope N_scope.
 
@@ -33,3 +34,26 @@ Example C18_nonvacuous :
   map erase_req h1 = map erase_req h2 /\ h1 <> h2 /\ map d_off (b_ds (run h1)) = [0; 4; 0].
 Proof. split; [reflexivity|split; [discriminate|vm_compute; reflexivity]]. Qed.
 Print Assumptions C18_nonvacuous.
+
+(* ---- pre-computed type tables (StaticTypeResolver): an association from recorded names to entries *)
+
+(* a table answers exactly what was registered, under the recorded name of the type *)
+Theorem C18_table_registered : forall (I : Type) (tb tb' : table I) t info,
+  table_add tb (recorded_name t) info = Some tb' -> table_get tb' (recorded_name t) = Some info.
+Proof.
+  intros I tb tb' t info H. destruct (table_lookup_spellings tb tb' t info H) as [H1 _].
+  unfold key_of in H1. exact H1.
+Qed.
+Print Assumptions C18_table_registered.
+
+(* registering a type changes no other answer *)
+Theorem C18_table_frame : forall (I : Type) (tb tb' : table I) k info k',
+  table_add tb k info = Some tb' -> k' <> k -> table_get tb' k' = table_get tb k'.
+Proof. intros I. exact (@table_frame I). Qed.
+Print Assumptions C18_table_frame.
+
+(* a second registration under the same name is refused (add_type panics), never a silent replacement *)
+Theorem C18_table_no_overwrite : forall (I : Type) (tb : table I) k i i',
+  table_get tb k = Some i -> table_add tb k i' = None.
+Proof. intros I tb k i i' H. unfold table_add. now rewrite H. Qed.
+Print Assumptions C18_table_no_overwrite.
